@@ -747,6 +747,7 @@ static int print_graph_rstack(struct uftrace_data *handle, struct uftrace_task_r
 	struct uftrace_mmap *map = NULL;
 	struct uftrace_dbg_loc *loc = NULL;
 	char *str_loc = NULL;
+	bool skip_libcall = false;
 
 	if (task == NULL)
 		return 0;
@@ -758,9 +759,12 @@ static int print_graph_rstack(struct uftrace_data *handle, struct uftrace_task_r
 	sym = task_find_sym(sessions, task, rstack);
 	symname = symbol_getname(sym, rstack->addr);
 
-	/* skip it if --no-libcall is given */
+	/*
+	 * with --no-libcall a library call still goes through the filters, as in
+	 * report, graph, dump and fstack_skip(): it is only not shown
+	 */
 	if (!opts->libcall && sym && sym->type == ST_PLT_FUNC)
-		goto out;
+		skip_libcall = true;
 
 	if (rstack->type == UFTRACE_ENTRY) {
 		int len = strlen(symname);
@@ -801,7 +805,7 @@ static int print_graph_rstack(struct uftrace_data *handle, struct uftrace_task_r
 		int ret;
 
 		ret = fstack_entry(task, rstack, &tr);
-		if (ret < 0)
+		if (ret < 0 || skip_libcall)
 			goto out;
 
 		/* display depth is set in fstack_entry() */
@@ -890,7 +894,8 @@ static int print_graph_rstack(struct uftrace_data *handle, struct uftrace_task_r
 		/* function exit */
 		fstack = fstack_get(task, task->stack_count);
 
-		if (fstack_enabled && fstack != NULL && !(fstack->flags & FSTACK_FL_NORECORD)) {
+		if (!skip_libcall && fstack_enabled && fstack != NULL &&
+		    !(fstack->flags & FSTACK_FL_NORECORD)) {
 			int depth = fstack_update(UFTRACE_EXIT, task, fstack);
 			char *retval = args;
 
